@@ -17,7 +17,8 @@ def run_check(pid, tier, repo, seed, write=True):
     try:
         mod = importlib.import_module(f"hyverif.rules.{pid.lower()}")
         explanation = mod.run(rep) or getattr(mod, "EXPLANATION", "")
-        from . import ckern
+        from . import ckern, dims
+        dims.property_rule(rep, pid)
         req = ckern.requested()
         if req:
             rid = f"R{pid[1:]}.p"
